@@ -21,8 +21,6 @@ use crate::{
 #[allow(unused_imports)] // Import is indeed used.
 use num_traits::Float;
 
-use super::rem_euclid_f64;
-
 impl Epoch {
     /// Returns the minimum of the two epochs.
     ///
@@ -249,13 +247,13 @@ impl Epoch {
     /// You _probably_ do not want to use this. You probably either want `weekday()` or `weekday_utc()`.
     /// Several time scales do _not_ have a reference day that's on a Monday, e.g. BDT.
     pub fn weekday_in_time_scale(&self, time_scale: TimeScale) -> Weekday {
-        (rem_euclid_f64(
-            self.to_duration_in_time_scale(time_scale)
-                .to_unit(Unit::Day),
-            Weekday::DAYS_PER_WEEK,
-        )
-        .floor() as u8)
-            .into()
+        // Count the whole days with integers: a floating point number of days would round up in the last
+        // fraction of a microsecond of a day. One century is a whole number of days, and the nanoseconds
+        // always count forward, so this is the floored number of days, including for negative durations.
+        let (centuries, nanoseconds) = self.to_duration_in_time_scale(time_scale).to_parts();
+        let days = i64::from(centuries) * crate::DAYS_PER_CENTURY_I64
+            + (nanoseconds / NANOSECONDS_PER_DAY) as i64;
+        (days.rem_euclid(Weekday::DAYS_PER_WEEK_I128 as i64) as u8).into()
     }
 
     #[must_use]
